@@ -210,10 +210,13 @@ def c25(ck, F, tier):
         "load_from_icalc, Model::from_workbook and Model::from_bytes (both crates; stopping at evaluation; spreadsheet "
         "functions excluded).  Adds the idioms of the importer: unwrap of attribute(K) under has_attribute(K), unwrap after "
         "an is_err()/is_none() early return, Vec::push / vec![..; n] / vec![a, b] lengths, constant-range contains(), "
-        "constant slices.  Not decided: the third-party zip / XML / bitcode decoders (their panics and resource use), "
+        "constant slices.  (LOOP-BOUND) the structural part of 'runs without bound': loops that expand a range taken from the "
+        "file into one entry per cell are dominated by a comparison of the cell count with a constant cap.  Not decided: the third-party zip / XML / bitcode decoders (their panics and resource use), "
         "termination and memory bounds ('runs without bound'), stack depth on deeply nested XML.")
     ck.rule("PANIC", "every panic site reachable from the import entry points is discharged, assumed with a reason, or reported", floor=130)
     guarded(ck, pn.panic_rule, F, "PANIC", pn.C25_ENTRIES, pn.C25_STOPS, pn.C25_EXCEPTIONS)
+    ck.rule("LOOP-BOUND", "ranges read from the file are expanded per cell only under a constant cap", floor=4)
+    guarded(ck, pn.range_expansion_capped, F)
 
 
 def c10(ck, F, tier):
